@@ -238,9 +238,13 @@ def finish_setup(world, case):
     sspec = dict(case.get("server") or {})
     users = build_users(sspec.pop("users", None))
     kw = {k: sspec[k] for k in SERVER_KEYS if k in sspec}
-    server = world.make_server(users, **kw)
+    backend = {"memory": aioftp.MemoryPathIO, "pathio": aioftp.PathIO, "asyncpathio": aioftp.AsyncPathIO}[fsspec.get("backend", "memory")]
+    server = world.make_server(users, backend=backend, **kw)
+    if fsspec.get("backend") == "asyncpathio":
+        r2 = world.rng("executor")
+        world.loop.executor_delay = lambda: r2.choice([0.0, 0.0001, 0.001])
     tree = fsspec.get("tree")
-    if tree:
+    if tree and fsspec.get("backend", "memory") == "memory":
         world.populate({k: (None if v is None else (v.encode("latin-1") if isinstance(v, str) else payload(k, v))) for k, v in tree.items()})
     return server
 
